@@ -359,14 +359,14 @@ class NodeDictionary(NodeParameter):
             for items in self._param_value.items() for x in items)
 
     def _as_osc_arg_list(self):
-        return self._as_control_input()
+        lst = []
+        self._embed_as_osc_arg(lst)
+        return lst
 
     def _embed_as_osc_arg(self, lst):
-        lst.append('[')
         for item in self._param_value.items():
             for e in item:
                 node_param(e)._embed_as_osc_arg(lst)
-        lst.append(']')
 
 
 ### Module functions ###
